@@ -339,7 +339,7 @@ PROPS["C17"] = {'assumptions': ["sync.Mutex / sync.RWMutex mutual exclusion, syn
                  'ExportCryptoState) while traffic is in flight'],
  'engines': ['race'],
  'lean': 'CedarProps.C17',
- 'level_note': 'Partial by nature: the theorems are lock discipline, atomic sections, configuration copies and field disjointness over a model; the runtime '
+ 'level_note': 'Partial by nature: the theorems are lock discipline, atomic sections, configuration copies and field disjointness over a model; the runtime  One stream state is NOT covered and recorded as a known finding (F-C17-keyed-plain-secret-toggle): a stream that holds a key but is not encrypting, where the crypto-for-secret switch is one flag for both directions (keyed_plain_secret_writes_shared; directions_independent assumes Established, which excludes that state).'
                '(mutexes, maps, scheduler) is not modelled and the race detector is only the SEARCH for a failing schedule (its coverage is what the workloads '
                'reach). Fact tables are syntactic: an access is attributed to the object expression it is written with (one object per type per method), '
                "constructors are exempt (writes before publication), 'guarded write' means lexically under an if/for/switch. DebugDump / InvalidateExpired "
